@@ -53,6 +53,10 @@ CLAIMS = {
    technique="static address-arithmetic analysis: polynomial normal forms of every index/span on the backing slice, bounds from path guards/loop headers/call-site obligations (go/ssa path summaries)",
    text="Every index and span applied to Array2D's backing slice is split as Q1*width + Q0 and shown, on every path reaching it, to satisfy 0<=Q1<height and 0<=Q0<width (spans: ordered, within one row), with bounds taken from the path's own guards, loop headers and, for helpers and internally called methods, obligations at each call site. By the stated lemma this is exactly injectivity of the cell mapping for every shape; constructors, Fill's rectangle and Clone's detachment are decided as tables.",
    note="Not decided: String formatting; copy's truncation semantics (language). The arithmetic lemma (x + y*W bijective on [0,W)x[0,H)) is stated, not machine-checked."),
+ "C07": dict(cat="other", sec="4 C07",
+   technique="static ownership/encapsulation, sentinel-flow and path-table analysis over go/ssa (closures resolved through their bindings)",
+   text="Decides who may write Sorted's backing slice (only Insert in Add, Remove in Remove/RemoveAt), that it is never aliased in or out (NewSorted makes+copies on every path and leaves its argument alone; nothing returns the slice), that positions come from sort.Search over the whole length with the lower-bound predicate !less(s[i],value), that Index validates with == and < Len, that Remove deletes only at a validated position and otherwise returns -1 unchanged, and package-wide that a -1 sentinel never reaches an index.",
+   note="Not decided: the inductive step to 'sorted after every history' (needs sort.Search's semantics on sorted data, trusted, plus C12's splice clauses)."),
 }
 
 checks, na = [], []
